@@ -33,6 +33,10 @@ static CALLS: AtomicUsize = AtomicUsize::new(0);
 
 /// Fault injection: fail the n-th (1-based) ring mmap / madvise from now, 0 = never.
 pub static FAIL_MMAP_AT: AtomicI64 = AtomicI64::new(0);
+/// Fault injection: the n-th (1-based) close(2) of a descriptor issued by the simulated kernel closes
+/// the descriptor and then reports EINTR (as Linux may: the descriptor is gone all the same); 0 = never.
+pub static CLOSE_EINTR_AT: AtomicI64 = AtomicI64::new(0);
+static ISSUED_CLOSES: AtomicI64 = AtomicI64::new(0);
 pub static FAIL_MADVISE_AT: AtomicI64 = AtomicI64::new(0);
 static MMAP_COUNT: AtomicI64 = AtomicI64::new(0);
 static MADVISE_COUNT: AtomicI64 = AtomicI64::new(0);
@@ -91,6 +95,8 @@ pub fn reset() {
     s.mappings.clear();
     N_MAPPINGS.store(0, Ordering::SeqCst);
     FAIL_MMAP_AT.store(0, Ordering::SeqCst);
+    CLOSE_EINTR_AT.store(0, Ordering::SeqCst);
+    ISSUED_CLOSES.store(0, Ordering::SeqCst);
     FAIL_MADVISE_AT.store(0, Ordering::SeqCst);
     MMAP_COUNT.store(0, Ordering::SeqCst);
     MADVISE_COUNT.store(0, Ordering::SeqCst);
@@ -293,6 +299,11 @@ pub unsafe extern "C" fn close(fd: c_int) -> c_int {
         crate::talloc::untracked(|| state().events.push(MapEvent::CloseRing { fd, res }));
     } else if issued {
         crate::talloc::untracked(|| state().events.push(MapEvent::CloseIssued { fd, res }));
+        let n = ISSUED_CLOSES.fetch_add(1, Ordering::SeqCst) + 1;
+        if res == 0 && CLOSE_EINTR_AT.load(Ordering::SeqCst) == n {
+            unsafe { *libc::__errno_location() = libc::EINTR };
+            return -1;
+        }
     }
     res
 }
